@@ -28,6 +28,10 @@ LABELS = {"x": [10, 11, 12, 13, 14], "y": ["a", "b", "c"], "z": [0.5, 1.5]}
 # ---------------------------------------------------------------- payload callables (module level: stable names)
 def make_value(tag: int, flat: int, ishape: tuple) -> np.ndarray:
     n = int(np.prod(ishape))
+    if tag >= 100:
+        # members that are all equal, with values that are not exactly representable (0.1, 0.2, ...): the case in which a
+        # one-pass variance cancels to a tiny negative number
+        return ((np.arange(n).reshape(ishape) + 1) * 0.1 * (tag - 99)).astype("float64")
     return (np.arange(n).reshape(ishape) * 2 + 1 + 5 * flat + 3 * tag).astype("float64")
 
 
